@@ -20,11 +20,8 @@ def classify_pm(seq, idx, impl, spec):
 
 def check(run):
     run.level = "proof"
-    try:
-        from checks import _tree_theorems
-        run.prove("ZkProofs.C08", _tree_theorems.C08)
-    except ImportError:
-        run.note("proof module for C08 not present yet")
+    from checks import _tree_theorems
+    run.prove(_tree_theorems.C08)
     rng = run.rng
     quick = run.tier == "quick"
     nseq = 60 if quick else 600
